@@ -114,6 +114,8 @@ structure NRef where
   /-- datagrams sealed by a key holder with a raw plaintext (`nseal`): outside the scope of the outsider properties -/
   keyholder : List (Bytes × Bytes × Int) := []      -- (wire datagram, plaintext, time of sealing)
   marks : List (String × Nat) := []
+  /-- the script declares: membership is stable and the network delivers from here on (`nexpect stable`): no peer may be timed out any more -/
+  stable : Bool := false
 
 /-- the sessions `a` and `b` hold for each other stem from the same handshake attempt: the last two completions between
     them are the initiator's (at the pong) followed by the responder's (at the peng).  While only one end has completed a
@@ -296,6 +298,10 @@ def receiveChecks (r : NRef) (port : Nat) (src : String) (d : Bytes) (attack : B
       else if !(modeFlags (r.cfgOf port "mode") (r.cfgOf port "dev" = "tap")).1 &&
           after.cache.any (fun (a, p, _) => !(before.cache.any (fun (a', p', _) => a' = a && p' = p))) then
         some "C13 an address was learned from received traffic in a mode that never learns"
+      -- C15: a peer record written by a (re-)handshake carries the timeout the peer advertises NOW (its current configuration)
+      else if !attack && after.peers.any (fun q => q.addr = src && !(before.peers.any (fun p => p.addr = q.addr && p.nodeId = q.nodeId)) &&
+          (r.node (portOf src)).isSome && (r.cfgOf (portOf src) "pt").toNat?.isSome && q.pt ≠ ((r.cfgOf (portOf src) "pt").toNat?.getD 0) % 65536) then
+        some "C15 the timeout a peer advertises was not recorded when the handshake (re-)established it"
       -- C10: nothing received is relayed: non-handshake datagrams go back to the sender only
       else if outs.any (fun (_, dst, b) => b.head? ≠ some 255 && dst ≠ src && !b.isEmpty) then some "C10 a received datagram caused a non-handshake datagram to a third party (relaying)"
       else if tr.isSome && !outs.isEmpty then some "C10 a received payload datagram caused datagrams on the wire"
@@ -468,6 +474,9 @@ def nodeRefStep (r : NRef) (t : List String) (obs : String) : NRef × String :=
         | none =>
           -- C15: silent peers are gone, with their routes
           if after.peers.any (fun q => q.timeout < r.now) then some "C15 a peer whose timeout has passed survived housekeeping"
+          -- C15: "in a mesh with stable membership on a delivering network no healthy peer is ever timed out"
+          else if r.stable && before.peers.any (fun q => q.ready && !(after.peers.any (fun q' => q'.addr = q.addr))) then
+            some s!"C15 a healthy peer was timed out although membership is stable and the network delivers ({(before.peers.filter (fun q => q.ready && !(after.peers.any (fun q' => q'.addr = q.addr)))).map (·.addr)})"
           -- C05: an attempt that has used up its retry budget is given up at the next tick ("handshake retry horizon"); nothing of it stays behind
           else if before.pendingRetries.any (fun (a, k) => k ≥ Generated.MAX_FAILED_RETRIES &&
               after.pendingRetries.any (fun (a', k') => a' = a && k' ≥ Generated.MAX_FAILED_RETRIES)) then
@@ -520,6 +529,7 @@ def nodeRefStep (r : NRef) (t : List String) (obs : String) : NRef × String :=
         match r.node a with
         | some n => if n.peers.any (fun q => q.addr = s!"p{b}" && q.ready) then none else some s!"{a}->{b}"
         | none => some s!"{a}->{b}"))
+      if k = "stable" then ({ r with stable := true }, "ok") else
       if k = "keychange" then
         -- nexpect keychange <a> <b> <from>: payload datagrams a -> b emitted at or after time <from> were sealed under at least two different key ids
         match muts with
